@@ -217,6 +217,12 @@ def cache_step(fn):
         # Avoid some cache misses
         s = min(s, n - 1)
         if (n, s) not in _cache:
+            # Evaluate along the diagonal in order of increasing s, so that
+            # the recursion depth does not grow with s
+            for s_i in range(1, s):
+                n_i = n - s + s_i
+                if (n_i, s_i) not in _cache:
+                    _cache[(n_i, s_i)] = fn(n_i, s_i)
             _cache[(n, s)] = fn(n, s)
         return _cache[(n, s)]
 
